@@ -426,7 +426,17 @@ func randLiteral(r *rand.Rand) string {
 		s = ip + "."
 	}
 	if r.Intn(2) == 0 {
-		s += []string{"e", "E"}[r.Intn(2)] + []string{"", "+", "-"}[r.Intn(3)] + randDigits(r, 1+r.Intn(3), sep && r.Intn(2) == 0)
+		s += []string{"e", "E"}[r.Intn(2)] + []string{"", "+", "-"}[r.Intn(3)]
+		if r.Intn(4) == 0 {
+			// leading zeros are insignificant in the exponent too, however many there are
+			z := strings.Repeat("0", []int{1, 2, 15, 16, 17, 18, 19, 20, 21, 31, 32, 33, 40, 64, 300}[r.Intn(15)])
+			if sep && r.Intn(3) == 0 {
+				z = z[:len(z)/2] + "_" + z[len(z)/2:] + "_"
+				z = strings.TrimPrefix(z, "_")
+			}
+			s += z
+		}
+		s += randDigits(r, 1+r.Intn(3), sep && r.Intn(2) == 0)
 	}
 	return s
 }
